@@ -70,6 +70,26 @@ Definition call_ok (tr : list event) (t : tid) (ts : tstate) : Prop :=
   if is_idle ts then pend_call t tr = None
   else exists o older, pend_call t tr = Some (o, older) /\ call_res e ts o = CGo (t_pc ts).
 
+Definition shape_ok (l : loopk) (x : run) : bool :=
+  match l, r_idx x with LEnum, Some _ => true | LEnum, None => false | _, None => true | _, Some _ => false end.
+
+(** the per-event parts of the checkers C02--C06, C11, C12 *)
+Definition ev_all : tid -> res -> list drops -> list event -> bool :=
+  fun t r d tl => ev_C02 e t r d tl && ev_C03 e t r d tl && ev_C04 e t r d tl && ev_C05 e t r d tl
+                  && ev_C06 e t r d tl && ev_C11 e t r d tl && ev_C12 t r d tl.
+
+(** what a running loop has handed to its closure so far *)
+Definition acc_ok (tr : list event) (t : tid) (ts : tstate) : Prop :=
+  match pend_call t tr with
+  | Some (o, older) =>
+      forallb (run_idx_ok e) (t_acc ts) = true
+      /\ (forall l c cr, o = Loop l c cr -> forallb (shape_ok l) (t_acc ts) = true)
+      /\ increasing (rev (acc_iv ts)) = true
+      /\ all_above (iv_maxhi (cov e older)) (acc_iv ts) = true
+      /\ (stopped older = true -> t_acc ts = [])
+  | None => True
+  end.
+
 Record KInv (c : cfg) : Prop := {
   k_wf   : forall t, kpc_ok (c_pool c t) /\ Forall wf_op (t_todo (c_pool c t)) /\ wf_buf (t_buf (c_pool c t));
   k_out  : forall t, ~ In t L -> is_idle (c_pool c t) = true;
@@ -77,7 +97,13 @@ Record KInv (c : cfg) : Prop := {
   k_pend : n_pending (c_trace c) = sumZ (fun t => pendZ (c_pool c t)) L;
   k_til  : tiling (clean (c_trace c)) (frontier (c_sh c)) (hist c);
   k_end  : end_reported (c_trace c) = true -> e_len e <= s_c (c_sh c);
-  k_skip : skip_returned (c_trace c) = true -> e_len e <= s_c (c_sh c)
+  k_skip : skip_returned (c_trace c) = true -> e_len e <= s_c (c_sh c);
+  k_buf  : forall t bf, t_buf (c_pool c t) = Some bf -> buf_size t (c_trace c) = Some (bf_c bf);
+  k_acc  : forall t, acc_ok (c_trace c) t (c_pool c t);
+  k_rep  : forall m, min_reported (c_trace c) = Some m -> e_len e - frontier (c_sh c) <= m;
+  k_sk   : has_skip (c_trace c) = true ->
+           skip_returned (c_trace c) = true \/ exists u, In u L /\ t_pc (c_pool c u) = PSkip;
+  k_evs  : all_rets ev_all (c_trace c) = true
 }.
 
 (** events of thread [t] *)
@@ -131,6 +157,16 @@ Proof. intros E. rewrite E in Hk. discriminate Hk. Qed.
 
 (** ** how a commit changes the invariant's ingredients *)
 
+Lemma buf_size_others t u evs tr : u <> t -> Forall (ev_of t) evs -> buf_size u (evs ++ tr) = buf_size u tr.
+Proof.
+  intros Hn. induction evs as [|ev evs IH]; intros F; [reflexivity|].
+  inversion F as [|? ? H1 H2]; subst. cbn [app].
+  destruct ev as [v o|v r d|f r d]; cbn [ev_of] in H1; subst.
+  - rewrite buf_size_other_call by (intros ->; contradiction Hn; reflexivity). apply IH; assumption.
+  - rewrite buf_size_ret. apply IH; assumption.
+  - contradiction.
+Qed.
+
 Lemma kinv_commit c t sh' ts' l evs :
   KInv c -> In t L ->
   Forall (ev_of t) evs ->
@@ -140,9 +176,15 @@ Lemma kinv_commit c t sh' ts' l evs :
   tiling (clean (evs ++ c_trace c)) (frontier sh') (cov e (evs ++ c_trace c) ++ accs (upd (c_pool c) t ts')) ->
   (end_reported (evs ++ c_trace c) = true -> e_len e <= s_c sh') ->
   (skip_returned (evs ++ c_trace c) = true -> e_len e <= s_c sh') ->
+  (forall bf, t_buf ts' = Some bf -> buf_size t (evs ++ c_trace c) = Some (bf_c bf)) ->
+  acc_ok (evs ++ c_trace c) t ts' ->
+  (forall m, min_reported (evs ++ c_trace c) = Some m -> e_len e - frontier sh' <= m) ->
+  (has_skip (evs ++ c_trace c) = true ->
+     skip_returned (evs ++ c_trace c) = true \/ exists u, In u L /\ t_pc (upd (c_pool c) t ts' u) = PSkip) ->
+  all_rets ev_all (evs ++ c_trace c) = true ->
   KInv (commit c t sh' ts' l evs).
 Proof.
-  intros I Hin Fev Hpc Htodo Hbuf Hcall Hpend Htil Hend Hskip.
+  intros I Hin Fev Hpc Htodo Hbuf Hcall Hpend Htil Hend Hskip Hbs Hacc Hrep Hsk Hevs.
   split; cbn [commit c_pool c_trace c_sh].
   - intros u. destruct (Nat.eq_dec u t) as [->|Hn].
     + rewrite upd_same. auto.
@@ -160,6 +202,29 @@ Proof.
   - exact Htil.
   - exact Hend.
   - exact Hskip.
+  - intros u bf. destruct (Nat.eq_dec u t) as [->|Hn].
+    + rewrite upd_same. apply Hbs.
+    + rewrite upd_other by assumption. rewrite (buf_size_others t u evs _ Hn Fev). apply (k_buf c I).
+  - intros u. destruct (Nat.eq_dec u t) as [->|Hn].
+    + rewrite upd_same. assumption.
+    + rewrite upd_other by assumption. unfold acc_ok.
+      rewrite (pend_call_others t u evs _ Hn Fev). apply (k_acc c I).
+  - exact Hrep.
+  - exact Hsk.
+  - exact Hevs.
+Qed.
+
+(** the skip bookkeeping is kept by a step of a thread that neither starts nor finishes a skip *)
+Lemma sk_keep c t ts' evs :
+  KInv c -> t_pc (c_pool c t) <> PSkip ->
+  has_skip (evs ++ c_trace c) = has_skip (c_trace c) ->
+  (skip_returned (c_trace c) = true -> skip_returned (evs ++ c_trace c) = true) ->
+  has_skip (evs ++ c_trace c) = true ->
+  skip_returned (evs ++ c_trace c) = true \/ exists u, In u L /\ t_pc (upd (c_pool c) t ts' u) = PSkip.
+Proof.
+  intros I Hnp Hhs Hsr H. rewrite Hhs in H. destruct (k_sk c I H) as [Hr|(u & Hu & Hpu)].
+  - left. auto.
+  - right. exists u. split; [assumption|]. rewrite upd_other; [assumption|]. intros ->. contradiction.
 Qed.
 
 (** ** the equations of [step] for the known-size kinds *)
@@ -179,6 +244,98 @@ Proof. intros H1. unfold step. rewrite H1. destruct (e_kind e); try reflexivity.
 Lemma wadd_nowrap a b : a + b < W -> wadd a b = a + b.
 Proof. intros H. unfold wadd. apply N.mod_small. exact H. Qed.
 
+(** ** the per-event checks *)
+
+Lemma ev_all_intro t r d tl o older :
+  split_call t tl = Some (o, older) ->
+  forallb (run_idx_ok e) (res_runs r) = true ->
+  match o with
+  | Chunk n k => (n =? 0) || chunk_ok e n k r
+  | BufNext k => match buf_size t older with Some c => chunk_ok e c k r | None => true end
+  | _ => true
+  end = true ->
+  increasing (res_cover e r) = true ->
+  all_above (iv_maxhi (cov_of e t tl)) (res_cover e r) = true ->
+  all_above (iv_maxhi (cov e older)) (res_cover e r) = true ->
+  (end_reported older = true ->
+     (if can_end o then is_end r || is_panic r else true) && delivers_nothing e r && no_positive r = true) ->
+  (skip_returned older = true ->
+     (if can_end o then is_end r || is_panic r else true) && delivers_nothing e r
+     && match o, r with
+        | HasMore, RMore HNo => true
+        | HasMore, _ => false
+        | TryLen, RLen (Some n) => n =? 0
+        | TryLen, _ => false
+        | _, _ => true
+        end = true) ->
+  ev_C11 e t r d tl = true ->
+  match o with Loop l c _ => if c =? 0 then is_panic r else loop_shape_ok l r | _ => true end = true ->
+  ev_all t r d tl = true.
+Proof.
+  intros Hs H2 H3 H4a H4b H4c H5 H6 H11 H12.
+  unfold ev_all, ev_C02, ev_C03, ev_C04, ev_C05, ev_C06, ev_C12. rewrite Hs, H2, H4a, H4b, H4c, H11. cbn [andb].
+  assert (match o with
+          | Chunk n k => (n =? 0) || chunk_ok e n k r
+          | BufNext k => match buf_size t older with Some c => chunk_ok e c k r | None => true end
+          | _ => true end = true) as X3 by exact H3.
+  replace (match o with
+           | Chunk n k => (n =? 0) || chunk_ok e n k r
+           | BufNext k => match buf_size t older with Some c => chunk_ok e c k r | None => true end
+           | _ => true end) with true by (symmetry; exact X3).
+  cbn [andb].
+  destruct (end_reported older); [rewrite (H5 eq_refl)|]; cbn [andb];
+  (destruct (skip_returned older); [rewrite (H6 eq_refl)|]); cbn [andb]; exact H12.
+Qed.
+
+(** the second half of C11's per-event check, for results that are not length answers *)
+Lemma ev_C11_nolen t r d tl o older :
+  split_call t tl = Some (o, older) -> len_answer r = None ->
+  (zero_reported older = true -> delivers_nothing e r = true) ->
+  ev_C11 e t r d tl = true.
+Proof.
+  intros Hs Hl Hz. unfold ev_C11. rewrite Hs, Hl. cbn [andb].
+  unfold zero_reported in Hz. destruct (min_reported older) as [[|]|]; auto.
+Qed.
+
+(** results that deliver nothing and are not length answers *)
+Definition null_pair (o : op) (r : res) : bool :=
+  match o, r with
+  | (Next _ | Chunk _ _ | BufNext _), RNone => true
+  | BufNext _, RPanic _ [] => true
+  | BufNew c, RPanic _ [] => c =? 0
+  | BufNew c, RUnit => true
+  | (BufDrop | Skip), RUnit => true
+  | Loop _ c _, RPanic _ [] => c =? 0
+  | Loop _ c _, RLoop [] => negb (c =? 0)
+  | _, _ => false
+  end.
+
+Lemma ev_all_null t r d tl o older :
+  split_call t tl = Some (o, older) -> null_pair o r = true -> ev_all t r d tl = true.
+Proof.
+  intros Hs Hp.
+  assert (res_cover e r = [] /\ res_runs r = [] /\ len_answer r = None /\ no_positive r = true) as (Hc & Hr & Hl & Hn).
+  { destruct o, r; cbn [null_pair] in Hp; try discriminate; try (destruct rs; try discriminate); repeat split; reflexivity. }
+  apply ev_all_intro with o older; try assumption.
+  - rewrite Hr. reflexivity.
+  - destruct o, r; cbn [null_pair] in Hp; try discriminate; try reflexivity;
+      cbn [chunk_ok]; rewrite ?orb_true_r; try reflexivity; destruct (buf_size t older); reflexivity.
+  - rewrite Hc. reflexivity.
+  - rewrite Hc. reflexivity.
+  - rewrite Hc. reflexivity.
+  - intros _. unfold delivers_nothing. rewrite Hc, Hn. cbn [iv_total N.eqb andb].
+    destruct o, r; cbn [null_pair] in Hp; try discriminate; try (destruct rs; try discriminate);
+      cbn [can_end is_pull is_end is_panic negb orb andb]; try reflexivity; destruct (n =? 0); reflexivity.
+  - intros _. unfold delivers_nothing. rewrite Hc. cbn [iv_total N.eqb andb].
+    destruct o, r; cbn [null_pair] in Hp; try discriminate; try (destruct rs; try discriminate);
+      cbn [can_end is_pull is_end is_panic negb orb andb]; try reflexivity; destruct (n =? 0); reflexivity.
+  - apply ev_C11_nolen with o older; try assumption. intros _. unfold delivers_nothing. rewrite Hc. reflexivity.
+  - destruct o, r; cbn [null_pair] in Hp; try discriminate; try reflexivity;
+      try (destruct rs; try discriminate).
+    + destruct (c =? 0); [discriminate Hp|reflexivity].
+    + destruct (c =? 0); [reflexivity|discriminate Hp].
+Qed.
+
 (** ** the call point *)
 
 Lemma acc_idle c t : KInv c -> is_idle (c_pool c t) = true -> t_acc (c_pool c t) = [].
@@ -196,6 +353,18 @@ Proof.
   intros I Hin Hcl T P. apply til_move with (delta := []); [assumption|exact P|].
   cbn [app]. eapply tiling_weaken; eassumption.
 Qed.
+
+Lemma op_eq_skip o : o = Skip \/ o <> Skip.
+Proof. destruct o; try (right; discriminate). left; reflexivity. Qed.
+
+Lemma null_facts o r : null_pair o r = true ->
+  res_cover e r = [] /\ len_answer r = None /\ is_end r || is_panic r || negb (can_end o) = true.
+Proof.
+  intros Hp. destruct o, r; cbn [null_pair] in Hp; try discriminate; try (destruct rs; try discriminate);
+    repeat split; try reflexivity.
+Qed.
+
+Definition I0 : True := I.
 
 Lemma kinv_call c t o rest :
   KInv c -> In t L -> t_pc (c_pool c t) = PIdle -> t_todo (c_pool c t) = o :: rest ->
@@ -237,7 +406,30 @@ Proof.
       * unfold acc_iv. cbn [t_acc]. rewrite Hacc. apply Permutation_refl.
     + cbn [app end_reported]. apply (k_end c I).
     + cbn [app skip_returned]. apply (k_skip c I).
+    + cbn [t_buf app]. intros bf Hbf. rewrite buf_size_call_nonbuf; [apply (k_buf c I); assumption|].
+      intros c0 ->. unfold call_res in E. destruct (c0 =? 0); discriminate.
+    + unfold acc_ok. cbn [app]. rewrite pend_call_self_call. unfold acc_iv. cbn [t_acc map rev forallb increasing all_above].
+      repeat split; auto.
+    + cbn [app min_reported]. apply (k_rep c I).
+    + cbn [app]. destruct (op_eq_skip o) as [->|Hns].
+      * intros _. right. exists t. split; [assumption|]. rewrite upd_same. cbn [t_pc].
+        unfold call_res in E. injection E as <-. reflexivity.
+      * apply (sk_keep c t _ [ECall t o]); try assumption.
+        -- rewrite Hpc. discriminate.
+        -- cbn [app has_skip]. destruct o; try reflexivity. contradiction Hns; reflexivity.
+        -- cbn [app skip_returned]. auto.
+    + cbn [app]. rewrite all_rets_call. apply (k_evs c I).
   - (* the operation returns at once *)
+    assert (Hnull : null_pair o r = true).
+    { unfold call_res in E. destruct o; cbn [wf_op] in Hwo; try discriminate.
+      - destruct (e_kind e); try discriminate Hk; discriminate.
+      - destruct (N.eqb_spec c0 0).
+        + injection E as <- <- <-. cbn [null_pair]. apply N.eqb_eq; assumption.
+        + injection E as <- <- <-. reflexivity.
+      - destruct (t_buf (c_pool c t)); [discriminate|]. injection E as <- <- <-. reflexivity.
+      - injection E as <- <- <-. reflexivity.
+      - destruct (N.eqb_spec c0 0); [|destruct (c0 =? 1); discriminate].
+        injection E as <- <- <-. cbn [null_pair]. apply N.eqb_eq; assumption. }
     assert (Hr : wf_buf b /\ res_cover e r = [] /\ is_end r = false /\ o <> Skip).
     { unfold call_res in E. destruct o; cbn [wf_op] in Hwo; try discriminate.
       - destruct (e_kind e); try discriminate Hk; discriminate.
@@ -261,6 +453,26 @@ Proof.
     + cbn [app end_reported]. rewrite Hne. cbn [andb orb]. apply (k_end c I).
     + cbn [app skip_returned split_call]. rewrite Nat.eqb_refl.
       destruct o; try (apply (k_skip c I)). contradiction Hns; reflexivity.
+    + cbn [app]. intros bf Hbf. rewrite buf_size_ret. unfold call_res in E.
+      destruct o; try discriminate.
+      * destruct (e_kind e); try discriminate Hk; discriminate.
+      * cbn [buf_size]. rewrite Nat.eqb_refl. destruct (N.eqb_spec c0 0).
+        -- injection E as <- <- <-. cbn [andb negb]. apply (k_buf c I). assumption.
+        -- injection E as <- <- <-. cbn [andb negb]. injection Hbf as <-. reflexivity.
+      * destruct (t_buf (c_pool c t)); [discriminate|]. injection E as <- <- <-. discriminate.
+      * injection E as <- <- <-. discriminate.
+      * destruct (N.eqb_spec c0 0); [|destruct (c0 =? 1); discriminate].
+        injection E as <- <- <-. rewrite buf_size_call_nonbuf by discriminate. apply (k_buf c I). assumption.
+    + unfold acc_ok. cbn [app]. rewrite pend_call_self_ret. exact I0.
+    + cbn [app]. rewrite min_reported_ret_none by (apply (proj1 (proj2 (null_facts _ _ Hnull)))).
+      cbn [min_reported]. apply (k_rep c I).
+    + apply (sk_keep c t _ [ERet t r d; ECall t o]); try assumption.
+      * rewrite Hpc. discriminate.
+      * cbn [app has_skip]. destruct o; try reflexivity. contradiction Hns; reflexivity.
+      * intros H. cbn [app]. apply skip_returned_cons, skip_returned_cons. exact H.
+    + cbn [app]. rewrite all_rets_ret, all_rets_call, (k_evs c I), andb_true_r.
+      apply ev_all_null with o (c_trace c); [|exact Hnull].
+      cbn [split_call]. rewrite Nat.eqb_refl. reflexivity.
 Qed.
 
 (** ** a pull: the fetch_add on the position counter and what follows it *)
@@ -346,30 +558,123 @@ Lemma end_reported_ret t r d tr o older :
   end_reported (ERet t r d :: tr) = (is_end r && can_end o) || end_reported tr.
 Proof. intros E. cbn [end_reported]. rewrite E. reflexivity. Qed.
 
+Lemma stopped_len c : KInv c -> stopped (c_trace c) = true -> e_len e <= s_c (c_sh c).
+Proof.
+  intros I. unfold stopped. rewrite !orb_true_iff. intros [[H|H]|H].
+  - apply (k_end c I H).
+  - apply (k_skip c I H).
+  - unfold zero_reported in H. destruct (min_reported (c_trace c)) as [[|]|] eqn:E; try discriminate.
+    pose proof (k_rep c I 0 E). unfold frontier in *. lia.
+Qed.
+
+Lemma cov_below c : KInv c -> iv_maxhi (cov e (c_trace c)) <= frontier (c_sh c).
+Proof.
+  intros I. pose proof (tl_within _ _ _ (k_til c I)) as H. unfold hist in H.
+  rewrite iv_within_app in H. apply andb_true_iff in H. destruct H as [H _]. apply iv_within_maxhi. exact H.
+Qed.
+
+Lemma acc_below c t : KInv c -> In t L -> iv_maxhi (acc_iv (c_pool c t)) <= frontier (c_sh c).
+Proof.
+  intros I Hin. pose proof (tl_within _ _ _ (k_til c I)) as H. unfold hist in H.
+  rewrite iv_within_app in H. apply andb_true_iff in H. destruct H as [_ H].
+  apply iv_within_maxhi. unfold iv_within in *. rewrite forallb_forall in *. intros a Ha. apply H.
+  unfold accs. apply gather_in. exists t. split; assumption.
+Qed.
+
+Lemma top_ops ts o q : call_res e ts o = CGo (PRes q) -> q_ctx q = CTop ->
+  null_pair o RNone = true /\ (forall l c cr, o <> Loop l c cr) /\ o <> HasMore /\ o <> TryLen /\
+  match o with
+  | Chunk n k => q_n q = n /\ q_mode q = MChunk k
+  | BufNext k => exists bf, t_buf ts = Some bf /\ q_n q = bf_c bf /\ q_mode q = MBuf k
+  | Next v => q_mode q = MSingle v
+  | _ => False
+  end.
+Proof.
+  unfold call_res. destruct o; try discriminate.
+  - intros E C. injection E as <-. repeat split; try discriminate; reflexivity.
+  - destruct (e_kind e); try discriminate Hk; intros E C; injection E as <-; repeat split; try discriminate; reflexivity.
+  - destruct (c =? 0); discriminate.
+  - destruct (t_buf ts) as [bf|]; [|discriminate]. intros E C. injection E as <-.
+    repeat split; try discriminate. exists bf. repeat split; reflexivity.
+  - destruct (c =? 0); [discriminate|]. destruct (c =? 1); intros E C; injection E as <-; discriminate C.
+Qed.
+
+Lemma loop_ops ts o q l crash : call_res e ts o = CGo (PRes q) -> q_ctx q = CLoop l crash ->
+  exists c, o = Loop l c crash /\ c <> 0.
+Proof.
+  unfold call_res. destruct o; try discriminate.
+  - intros E C. injection E as <-. discriminate C.
+  - destruct (e_kind e); try discriminate Hk; intros E C; injection E as <-; discriminate C.
+  - destruct (c =? 0); discriminate.
+  - destruct (t_buf ts) as [bf|]; [|discriminate]. intros E C. injection E as <-. discriminate C.
+  - destruct (N.eqb_spec c 0); [discriminate|]. destruct (c =? 1); intros E C; injection E as <-; cbn [q_ctx] in C;
+      injection C as <- <-; exists c; (split; [reflexivity|assumption]).
+Qed.
+
+Lemma chunk_ok_at n k b cnt :
+  b < e_len e -> 1 <= cnt -> cnt <= n -> b + cnt <= e_len e -> (cnt < n -> b + cnt = e_len e) ->
+  chunk_ok e n k (chunk_res b [mk_run (Some b) (val_of e b) cnt] cnt (N.min k cnt)) = true.
+Proof using.
+  intros Hb H1 H2 H3 H4. unfold chunk_res, chunk_ok.
+  assert (1 <=? cnt = true) as -> by (apply N.leb_le; lia).
+  assert (cnt <=? n = true) as -> by (apply N.leb_le; lia).
+  rewrite N.eqb_refl. assert (cnt - N.min k cnt =? cnt - N.min k cnt = true) as -> by (apply N.eqb_refl).
+  assert (b + cnt <=? e_len e = true) as -> by (apply N.leb_le; lia).
+  assert ((cnt =? n) || (b + cnt =? e_len e) = true) as ->.
+  { destruct (N.eqb_spec cnt n); [reflexivity|]. cbn [orb]. apply N.eqb_eq. apply H4. lia. }
+  cbn [andb runs_take]. destruct (N.eqb_spec (N.min k cnt) 0) as [Hz|Hz]; [reflexivity|].
+  unfold mk_run. cbn [r_cnt r_idx r_val]. destruct (N.leb_spec cnt (N.min k cnt)) as [Hle|Hle]; cbn [r_cnt r_idx r_val].
+  - assert (cnt =? N.min k cnt = true) as -> by (apply N.eqb_eq; lia). rewrite !N.eqb_refl. reflexivity.
+  - rewrite !N.eqb_refl. reflexivity.
+Qed.
+
 Lemma deliver_top_known ts q b cnt :
   b < e_len e -> 1 <= cnt -> wf_req q -> (forall v, q_mode q = MSingle v -> cnt = 1) ->
+  cnt <= q_n q -> b + cnt <= e_len e -> (cnt < q_n q -> b + cnt = e_len e) ->
   exists r d, deliver_top e ts q b [mk_run (Some b) (val_of e b) cnt] cnt = (set_pc ts PIdle, (r, d))
-    /\ is_end r = false /\ is_panic r = false
+    /\ is_end r = false /\ is_panic r = false /\ len_answer r = None
+    /\ forallb (run_idx_ok e) (res_runs r) = true
+    /\ (forall k, q_mode q = MChunk k \/ q_mode q = MBuf k -> chunk_ok e (q_n q) k r = true)
     /\ exists took, took <= cnt /\
          res_cover e r = (if took =? 0 then [] else [(b, took)]) ++ [(b + took, cnt - took)].
 Proof.
-  intros Hb Hc Hq Hone. unfold deliver_top. destruct (q_mode q) as [v|k|k] eqn:M.
+  intros Hb Hc Hq Hone Hcn Hcl Hsh. unfold deliver_top.
+  destruct (q_mode q) as [v|k|k] eqn:M.
   - rewrite (Hone v eq_refl). eexists _, _. split; [reflexivity|].
-    destruct (reports_idx v); cbn [map one_res is_end is_panic res_cover res_taken];
-      (split; [reflexivity|split; [reflexivity|]]); exists 0; (split; [lia|]);
+    destruct (reports_idx v); cbn [map one_res is_end is_panic res_cover res_taken len_answer res_runs forallb];
+      (split; [reflexivity|split; [reflexivity|split; [reflexivity|]]]);
+      (split; [unfold run_idx_ok; cbn [strip_idx mk_run r_idx r_cnt r_val]; rewrite ?N.eqb_refl, ?orb_true_r; reflexivity|]);
+      (split; [intros k [X|X]; discriminate X|]); exists 0; (split; [lia|]);
       rewrite ?run_iv_strip, run_iv_at by assumption; cbn [N.eqb app]; f_equal; f_equal; lia.
-  - eexists _, _. split; [reflexivity|]. unfold chunk_res. cbn [is_end is_panic res_cover].
-    split; [reflexivity|split; [reflexivity|]]. exists (N.min k cnt). split; [lia|].
-    apply cover_chunk; [assumption|lia].
+  - eexists _, _. split; [reflexivity|]. unfold chunk_res at 1 2 3 4. cbn [is_end is_panic len_answer res_runs].
+    split; [reflexivity|split; [reflexivity|split; [reflexivity|]]].
+    split; [|split].
+    + cbn [runs_take]. destruct (N.min k cnt =? 0); [reflexivity|]. cbn [mk_run r_cnt].
+      destruct (cnt <=? N.min k cnt); cbn [runs_take forallb]; unfold run_idx_ok; cbn [mk_run r_idx r_cnt r_val];
+        rewrite ?N.eqb_refl, ?orb_true_r; reflexivity.
+    + intros k' [X|X]; [|discriminate X]. injection X as <-. apply chunk_ok_at; assumption.
+    + exists (N.min k cnt). split; [lia|]. unfold chunk_res. cbn [res_cover]. apply cover_chunk; [assumption|lia].
   - pose proof not_iter as Hni. remember (e_kind e) as kd eqn:K. destruct kd; try (contradiction Hni; reflexivity);
-      (eexists _, _; split; [reflexivity|]; unfold chunk_res; cbn [is_end is_panic res_cover];
-       split; [reflexivity|split; [reflexivity|]]; exists (N.min k cnt); split; [lia|];
-       apply cover_chunk; [assumption|lia]).
+      (eexists _, _; split; [reflexivity|]; unfold chunk_res at 1 2 3 4; cbn [is_end is_panic len_answer res_runs];
+       split; [reflexivity|split; [reflexivity|split; [reflexivity|]]];
+       split; [|split];
+       [ cbn [runs_take]; destruct (N.min k cnt =? 0); [reflexivity|]; cbn [mk_run r_cnt];
+         destruct (cnt <=? N.min k cnt); cbn [runs_take forallb]; unfold run_idx_ok; cbn [mk_run r_idx r_cnt r_val];
+         rewrite ?N.eqb_refl, ?orb_true_r; reflexivity
+       | intros k' [X|X]; [discriminate X|]; injection X as <-; apply chunk_ok_at; assumption
+       | exists (N.min k cnt); split; [lia|]; unfold chunk_res; cbn [res_cover]; apply cover_chunk; [assumption|lia] ]).
+Qed.
+
+Lemma runs_take_one u oi v cnt : 1 <= u -> u <= cnt -> runs_take u [mk_run oi v cnt] = [mk_run oi v u].
+Proof using.
+  intros H1 H2. cbn [runs_take]. destruct (N.eqb_spec u 0); [lia|]. unfold mk_run. cbn [r_cnt r_idx r_val].
+  destruct (N.leb_spec cnt u); [|reflexivity]. assert (u = cnt) as -> by lia. reflexivity.
 Qed.
 
 Lemma loop_invoke_cases l crash done b cnt :
   b < e_len e -> 1 <= cnt ->
   exists inv pan, loop_invoke l crash done [mk_run (Some b) (val_of e b) cnt] cnt = (inv, pan) /\
+    forallb (run_idx_ok e) inv = true /\ forallb (shape_ok l) inv = true /\
     match pan with
     | None => map (run_iv e) inv = [(b, cnt)]
     | Some used => 1 <= used /\ used <= cnt /\ map (run_iv e) inv = [(b, used)]
@@ -378,17 +683,35 @@ Proof using.
   intros Hb Hc. unfold loop_invoke.
   set (shape := match l with LEnum => fun r => r | _ => strip_idx end).
   assert (Hshape : forall r, run_iv e (shape r) = run_iv e r) by (intros r; unfold shape; destruct l; reflexivity).
+  assert (Hok : forall c', run_idx_ok e (shape (mk_run (Some b) (val_of e b) c')) = true
+                        /\ shape_ok l (shape (mk_run (Some b) (val_of e b) c')) = true).
+  { intros c'. unfold shape, run_idx_ok, shape_ok, strip_idx, mk_run. destruct l; cbn [r_idx r_cnt r_val];
+      rewrite ?N.eqb_refl, ?orb_true_r; split; reflexivity. }
+  assert (Hone : forall c', forallb (run_idx_ok e) (map shape [mk_run (Some b) (val_of e b) c']) = true
+                         /\ forallb (shape_ok l) (map shape [mk_run (Some b) (val_of e b) c']) = true).
+  { intros c'. cbn [map forallb]. destruct (Hok c') as [-> ->]. split; reflexivity. }
   destruct crash as [k|].
   - destruct (N.leb_spec done k) as [H1|H1]; cbn [andb].
     + destruct (N.ltb_spec k (done + cnt)) as [H2|H2].
-      * eexists _, _. split; [reflexivity|]. split; [lia|]. split; [lia|].
-        cbn [runs_take mk_run r_cnt r_idx r_val]. destruct (N.eqb_spec (k - done + 1) 0); [lia|].
-        destruct (N.leb_spec cnt (k - done + 1)).
-        -- assert (k - done + 1 = cnt) as -> by lia. cbn [runs_take map]. rewrite Hshape, run_iv_at by assumption. reflexivity.
-        -- cbn [map]. rewrite Hshape, run_iv_at by assumption. reflexivity.
-      * eexists _, _. split; [reflexivity|]. cbn [map]. rewrite Hshape, run_iv_at by assumption. reflexivity.
-    + eexists _, _. split; [reflexivity|]. cbn [map]. rewrite Hshape, run_iv_at by assumption. reflexivity.
-  - eexists _, _. split; [reflexivity|]. cbn [map]. rewrite Hshape, run_iv_at by assumption. reflexivity.
+      * eexists _, _. split; [reflexivity|].
+        rewrite runs_take_one by lia.
+        destruct (Hone (k - done + 1)) as [-> ->]. split; [reflexivity|split; [reflexivity|]]. split; [lia|]. split; [lia|].
+        cbn [map]. rewrite Hshape, run_iv_at by assumption. reflexivity.
+      * eexists _, _. split; [reflexivity|]. destruct (Hone cnt) as [-> ->]. split; [reflexivity|split; [reflexivity|]].
+        cbn [map]. rewrite Hshape, run_iv_at by assumption. reflexivity.
+    + eexists _, _. split; [reflexivity|]. destruct (Hone cnt) as [-> ->]. split; [reflexivity|split; [reflexivity|]].
+      cbn [map]. rewrite Hshape, run_iv_at by assumption. reflexivity.
+  - eexists _, _. split; [reflexivity|]. destruct (Hone cnt) as [-> ->]. split; [reflexivity|split; [reflexivity|]].
+    cbn [map]. rewrite Hshape, run_iv_at by assumption. reflexivity.
+Qed.
+
+Lemma has_skip_ret t r d tr : has_skip (ERet t r d :: tr) = has_skip tr.
+Proof. reflexivity. Qed.
+
+Lemma forallb_rev {A} (f : A -> bool) l : forallb f (rev l) = forallb f l.
+Proof.
+  induction l as [|a l IH]; [reflexivity|]. cbn [rev forallb]. rewrite forallb_app, IH. cbn [forallb].
+  rewrite andb_true_r. apply andb_comm.
 Qed.
 
 Lemma kinv_pull c t q :
@@ -403,15 +726,36 @@ Proof.
   destruct Hc as (o & older & Hpend & Hres).
   pose proof (pend_split _ _ _ Hpend) as Hsplit.
   pose proof (not_skip_call _ _ _ Hres) as Hnskip.
+  pose proof (k_acc c I t) as Ha. unfold acc_ok in Ha. rewrite Hpend in Ha.
+  destruct Ha as (Ha1 & Ha2 & Ha3 & Ha4 & Ha5).
+  pose proof (pend_suffix _ _ _ _ Hpend) as Hsuf.
+  assert (Hstop : stopped older = true -> e_len e <= s_c (c_sh c)).
+  { intros H. apply (stopped_len c I). eapply stopped_suffix; eassumption. }
+  assert (Hstop_e : end_reported older = true -> e_len e <= s_c (c_sh c)).
+  { intros H. apply Hstop. unfold stopped. rewrite H. reflexivity. }
+  assert (Hstop_s : skip_returned older = true -> e_len e <= s_c (c_sh c)).
+  { intros H. apply Hstop. unfold stopped. rewrite H. now rewrite orb_true_r. }
+  assert (Hstop_z : zero_reported older = true -> e_len e <= s_c (c_sh c)).
+  { intros H. apply Hstop. unfold stopped. rewrite H. now rewrite !orb_true_r. }
+  pose proof (cov_below c I) as Hcb.
+  pose proof (acc_below c t I Hin) as Hab.
+  assert (Hcof : iv_maxhi (cov_of e t (c_trace c)) <= frontier (c_sh c)).
+  { pose proof (cov_of_maxhi e t (c_trace c)). lia. }
+  assert (Hcold : iv_maxhi (cov e older) <= frontier (c_sh c)).
+  { pose proof (cov_suffix_maxhi e _ _ Hsuf). lia. }
+  assert (Hpcn : t_pc (c_pool c t) <> PSkip) by (rewrite Hpc; discriminate).
   rewrite (k_pull_spec e q _ He Hq).
   assert (Hmono : s_c (c_sh c) <= s_c (with_c (c_sh c) (wadd (s_c (c_sh c)) (k_incr e q)))).
   { rewrite wadd_nowrap by assumption. cbn [with_c s_c]. lia. }
+  assert (Hfm : frontier (c_sh c) <= frontier (with_c (c_sh c) (wadd (s_c (c_sh c)) (k_incr e q)))).
+  { unfold frontier. lia. }
   unfold finish.
   destruct (pull_spec e (q_n q) (s_c (c_sh c))) as [|b' rs cnt] eqn:PS.
   - (* the pull reports the end *)
     destruct (frontier_end (c_sh c) q Hq PS Hw) as [Hf Hlen].
     unfold deliver. destruct (q_ctx q) as [|l crash] eqn:Ctx.
     + (* directly *)
+      destruct (top_ops _ _ _ Hres Ctx) as (Hnull & _).
       cbn [ret_ev]. apply kinv_commit; try assumption.
       * repeat constructor.
       * unfold kpc_ok. cbn [set_pc t_pc t_acc]. auto.
@@ -429,7 +773,15 @@ Proof.
         -- specialize (Hlen Hz). lia.
       * cbn [app]. rewrite (skip_returned_ret_other _ _ _ _ _ _ Hsplit Hnskip).
         intros H. pose proof (k_skip c I H). lia.
+      * cbn [app set_pc t_buf]. intros bf Hbf. rewrite buf_size_ret. apply (k_buf c I). assumption.
+      * unfold acc_ok. cbn [app]. rewrite pend_call_self_ret. exact I0.
+      * cbn [app]. rewrite min_reported_ret_none by reflexivity. rewrite Hf. apply (k_rep c I).
+      * apply (sk_keep c t _ [ERet t RNone []]); try assumption; [reflexivity|].
+        intros H. cbn [app]. apply skip_returned_cons. exact H.
+      * cbn [app]. rewrite all_rets_ret, (k_evs c I), andb_true_r.
+        apply ev_all_null with o older; assumption.
     + (* inside a loop: the loop returns *)
+      destruct (loop_ops _ _ _ _ _ Hres Ctx) as (cc & -> & Hcc).
       cbn [ret_ev]. apply kinv_commit; try assumption.
       * repeat constructor.
       * unfold kpc_ok. cbn [t_pc t_acc]. reflexivity.
@@ -446,14 +798,43 @@ Proof.
         -- specialize (Hlen Hz). lia.
       * cbn [app]. rewrite (skip_returned_ret_other _ _ _ _ _ _ Hsplit Hnskip).
         intros H. pose proof (k_skip c I H). lia.
+      * cbn [app t_buf]. intros bf Hbf. rewrite buf_size_ret. apply (k_buf c I). assumption.
+      * unfold acc_ok. cbn [app]. rewrite pend_call_self_ret. exact I0.
+      * cbn [app]. rewrite min_reported_ret_none by reflexivity. rewrite Hf. apply (k_rep c I).
+      * apply (sk_keep c t _ [ERet t (RLoop (rev (t_acc (c_pool c t)))) []]); try assumption; [reflexivity|].
+        intros H. cbn [app]. apply skip_returned_cons. exact H.
+      * cbn [app]. rewrite all_rets_ret, (k_evs c I), andb_true_r.
+        assert (Hcovr : res_cover e (RLoop (rev (t_acc (c_pool c t)))) = rev (acc_iv (c_pool c t))).
+        { cbn [res_cover res_taken]. unfold acc_iv. apply map_rev. }
+        assert (Hnil : stopped older = true -> res_cover e (RLoop (rev (t_acc (c_pool c t)))) = []).
+        { intros H. rewrite (Ha5 H). reflexivity. }
+        apply ev_all_intro with (Loop l cc crash) older; try assumption.
+        -- cbn [res_runs]. rewrite forallb_rev. assumption.
+        -- reflexivity.
+        -- rewrite Hcovr. assumption.
+        -- rewrite Hcovr, all_above_rev. rewrite (cov_of_pend _ _ _ _ _ Hpend).
+           eapply all_above_mono; [apply cov_of_maxhi|assumption].
+        -- rewrite Hcovr, all_above_rev. assumption.
+        -- intros H. unfold delivers_nothing. rewrite Hnil by (unfold stopped; rewrite H; reflexivity). reflexivity.
+        -- intros H. unfold delivers_nothing. rewrite Hnil by (unfold stopped; rewrite H; now rewrite orb_true_r). reflexivity.
+        -- apply ev_C11_nolen with (Loop l cc crash) older; try assumption; [reflexivity|].
+           intros H. unfold delivers_nothing. rewrite Hnil by (unfold stopped; rewrite H; now rewrite !orb_true_r). reflexivity.
+        -- destruct (N.eqb_spec cc 0); [contradiction|]. cbn [loop_shape_ok]. rewrite forallb_rev.
+           apply (Ha2 l cc crash eq_refl).
   - (* the pull delivers [s_c, s_c + cnt) *)
     destruct (frontier_got (c_sh c) q b' rs cnt Hq PS Hw) as (Hf0 & Hf1 & Hlt).
     apply pull_spec_got in PS. destruct PS as (-> & -> & Hc1 & Hcn & Hcl & Hshort).
     set (b := s_c (c_sh c)) in *.
+    assert (Hnst : stopped older = false).
+    { destruct (stopped older); [|reflexivity]. specialize (Hstop eq_refl). lia. }
+    assert (Hns_e : end_reported older = false) by (unfold stopped in Hnst; destruct (end_reported older); [discriminate|reflexivity]).
+    assert (Hns_s : skip_returned older = false) by (unfold stopped in Hnst; destruct (skip_returned older); [rewrite orb_true_r in Hnst; discriminate|reflexivity]).
+    assert (Hns_z : zero_reported older = false) by (unfold stopped in Hnst; destruct (zero_reported older); [rewrite !orb_true_r in Hnst; discriminate|reflexivity]).
     unfold deliver. destruct (q_ctx q) as [|l crash] eqn:Ctx.
     + (* directly *)
       specialize (Hacc eq_refl).
-      destruct (deliver_top_known (c_pool c t) q b cnt Hlt Hc1 Hq) as (r & d & -> & Hne & Hnp & took & Htk & Hcov).
+      destruct (top_ops _ _ _ Hres Ctx) as (_ & Hnl & Hnh & Hnt & Hop).
+      destruct (deliver_top_known (c_pool c t) q b cnt Hlt Hc1 Hq) as (r & d & -> & Hne & Hnp & Hla & Hidx & Hchk & took & Htk & Hcov); try assumption.
       { intros v Hv. destruct Hq as [_ Hm]. rewrite Hv in Hm. lia. }
       cbn [ret_ev]. apply kinv_commit; try assumption.
       * repeat constructor.
@@ -467,21 +848,43 @@ Proof.
         intros H. pose proof (k_end c I H). lia.
       * cbn [app]. rewrite (skip_returned_ret_other _ _ _ _ _ _ Hsplit Hnskip).
         intros H. pose proof (k_skip c I H). lia.
+      * cbn [app set_pc t_buf]. intros bf Hbf. rewrite buf_size_ret. apply (k_buf c I). assumption.
+      * unfold acc_ok. cbn [app]. rewrite pend_call_self_ret. exact I0.
+      * cbn [app]. rewrite min_reported_ret_none by assumption. intros m Hm. pose proof (k_rep c I m Hm). lia.
+      * apply (sk_keep c t _ [ERet t r d]); try assumption; [reflexivity|].
+        intros H. cbn [app]. apply skip_returned_cons. exact H.
+      * cbn [app]. rewrite all_rets_ret, (k_evs c I), andb_true_r.
+        apply ev_all_intro with o older; try assumption.
+        -- destruct o; try reflexivity.
+           ++ destruct Hop as [Hn Hm]. rewrite <- Hn. rewrite (Hchk k (or_introl Hm)). apply orb_true_r.
+           ++ destruct Hop as (bf & Hbf & Hn & Hm).
+              rewrite <- (buf_size_pend _ _ _ _ Hpend) by discriminate.
+              rewrite (k_buf c I t bf Hbf). rewrite <- Hn. apply (Hchk k (or_intror Hm)).
+        -- rewrite Hcov. apply increasing_split. assumption.
+        -- rewrite Hcov. apply all_above_split. lia.
+        -- rewrite Hcov. apply all_above_split. lia.
+        -- rewrite Hns_e. discriminate.
+        -- rewrite Hns_s. discriminate.
+        -- apply ev_C11_nolen with o older; try assumption. rewrite Hns_z. discriminate.
+        -- destruct o; try reflexivity. contradiction (Hnl l c0 crash); reflexivity.
     + (* inside a loop *)
+      destruct (loop_ops _ _ _ _ _ Hres Ctx) as (cc & -> & Hcc).
       unfold deliver_loop.
-      destruct (loop_invoke_cases l crash (total_cnt (t_acc (c_pool c t))) b cnt Hlt Hc1) as (inv & pan & -> & Hinv).
+      destruct (loop_invoke_cases l crash (total_cnt (t_acc (c_pool c t))) b cnt Hlt Hc1) as (inv & pan & -> & Hi1 & Hi2 & Hinv).
       destruct pan as [used|].
       * (* the closure panics: the loop returns *)
         destruct Hinv as (Hu1 & Hu2 & Hinv).
+        assert (Hcovr : res_cover e (RPanic PkUser (rev (rev inv ++ t_acc (c_pool c t)))) = rev (acc_iv (c_pool c t)) ++ [(b, used)]).
+        { cbn [res_cover res_taken]. rewrite rev_app_distr, rev_involutive, map_app, Hinv. unfold acc_iv. rewrite map_rev. reflexivity. }
         cbn [ret_ev]. apply kinv_commit; try assumption.
         -- repeat constructor.
         -- unfold kpc_ok. cbn [t_pc t_acc]. reflexivity.
         -- unfold call_ok, is_idle. cbn [t_pc app]. apply pend_call_self_ret.
         -- cbn [app]. rewrite n_pending_ret. rewrite (pendZ_res _ _ Hpc). unfold pendZ, is_idle. cbn [t_pc]. lia.
-        -- cbn [app cov res_cover res_taken]. rewrite Hf1, clean_ret. cbn [is_panic negb andb].
+        -- cbn [app cov]. rewrite Hcovr. rewrite Hf1, clean_ret. cbn [is_panic negb andb].
            apply til_move with (delta := [(b, used)]); [assumption| |].
-           ++ unfold acc_iv. cbn [t_acc app]. rewrite app_nil_r, rev_app_distr, rev_involutive, map_app, Hinv.
-              rewrite map_rev. rewrite <- Permutation_rev. apply Permutation_app_comm.
+           ++ unfold acc_iv at 1. cbn [t_acc map]. rewrite app_nil_r.
+              rewrite <- Permutation_rev. apply Permutation_app_comm.
            ++ apply tiling_jump with (n := b + used); [lia|].
               cbn [app]. apply tiling_extend. fold (hist c). rewrite <- Hf0.
               eapply tiling_unclean. apply (k_til c I).
@@ -489,22 +892,61 @@ Proof.
            intros H. pose proof (k_end c I H). lia.
         -- cbn [app]. rewrite (skip_returned_ret_other _ _ _ _ _ _ Hsplit Hnskip).
            intros H. pose proof (k_skip c I H). lia.
+        -- cbn [app t_buf]. intros bf Hbf. rewrite buf_size_ret. apply (k_buf c I). assumption.
+        -- unfold acc_ok. cbn [app]. rewrite pend_call_self_ret. exact I0.
+        -- cbn [app]. rewrite min_reported_ret_none by reflexivity. intros m Hm. pose proof (k_rep c I m Hm). lia.
+        -- apply (sk_keep c t _ [ERet t (RPanic PkUser (rev (rev inv ++ t_acc (c_pool c t)))) (drops_after e used [mk_run (Some b) (val_of e b) cnt])]); try assumption; [reflexivity|].
+           intros H. cbn [app]. apply skip_returned_cons. exact H.
+        -- cbn [app]. rewrite all_rets_ret, (k_evs c I), andb_true_r.
+           apply ev_all_intro with (Loop l cc crash) older; try assumption.
+           ++ cbn [res_runs]. rewrite forallb_rev, forallb_app, forallb_rev, Hi1, Ha1. reflexivity.
+           ++ reflexivity.
+           ++ rewrite Hcovr. apply increasing_snoc; [assumption|]. cbn [fst].
+              rewrite (iv_maxhi_perm _ _ (Permutation_sym (Permutation_rev _))). lia.
+           ++ rewrite Hcovr, all_above_app, all_above_rev. rewrite (cov_of_pend _ _ _ _ _ Hpend).
+              apply andb_true_iff. split.
+              ** eapply all_above_mono; [apply cov_of_maxhi|assumption].
+              ** apply all_above_forall. intros a [<-|[]]. right. cbn [fst].
+                 pose proof (cov_of_maxhi e t older). lia.
+           ++ rewrite Hcovr, all_above_app, all_above_rev, Ha4. cbn [andb].
+              apply all_above_forall. intros a [<-|[]]. right. cbn [fst]. lia.
+           ++ rewrite Hns_e. discriminate.
+           ++ rewrite Hns_s. discriminate.
+           ++ apply ev_C11_nolen with (Loop l cc crash) older; try assumption; [reflexivity|]. rewrite Hns_z. discriminate.
+           ++ destruct (N.eqb_spec cc 0); [contradiction|].
+              change (forallb (shape_ok l) (rev (rev inv ++ t_acc (c_pool c t))) = true).
+              rewrite forallb_rev, forallb_app, forallb_rev, Hi2. cbn [andb]. apply (Ha2 l cc crash eq_refl).
       * (* the loop goes on *)
+        assert (Hinv1 : exists i0, inv = [i0] /\ run_iv e i0 = (b, cnt)).
+        { destruct inv as [|i0 [|]]; try discriminate Hinv. exists i0. split; [reflexivity|]. cbn [map] in Hinv. congruence. }
+        destruct Hinv1 as (i0 & -> & Hi0).
         cbn [ret_ev]. apply kinv_commit; try assumption.
         -- constructor.
         -- unfold kpc_ok. cbn [t_pc t_acc]. split; [assumption|]. rewrite Ctx. discriminate.
-        -- unfold call_ok, is_idle. cbn [t_pc app]. exists o, older. split; [assumption|].
+        -- unfold call_ok, is_idle. cbn [t_pc app]. exists (Loop l cc crash), older. split; [assumption|].
            eapply call_res_buf; [|exact Hres]. reflexivity.
         -- cbn [app]. rewrite (pendZ_res _ _ Hpc). unfold pendZ, is_idle. cbn [t_pc]. lia.
         -- cbn [app]. rewrite Hf1.
            change (cov e (c_trace c)) with ([] ++ cov e (c_trace c)).
            apply til_move with (delta := [(b, cnt)]); [assumption| |].
-           ++ unfold acc_iv. cbn [t_acc app]. rewrite map_app, map_rev.
-              destruct inv as [|i0 [|]]; try discriminate Hinv. cbn [map rev app] in *. assert (run_iv e i0 = (b, cnt)) as -> by congruence.
-              apply Permutation_refl.
+           ++ unfold acc_iv. cbn [t_acc app rev map]. rewrite Hi0. apply Permutation_refl.
            ++ cbn [app]. apply tiling_extend. fold (hist c). rewrite <- Hf0. apply (k_til c I).
         -- cbn [app]. intros H. pose proof (k_end c I H). lia.
         -- cbn [app]. intros H. pose proof (k_skip c I H). lia.
+        -- cbn [app t_buf]. apply (k_buf c I).
+        -- unfold acc_ok. cbn [app]. rewrite Hpend. cbn [t_acc rev app]. unfold acc_iv. cbn [t_acc map rev app forallb].
+           cbn [forallb] in Hi1, Hi2. rewrite andb_true_r in Hi1, Hi2. rewrite Hi0.
+           split; [rewrite Hi1; assumption|]. split.
+           { intros l0 c0 cr0 E. injection E as <- <- <-. rewrite Hi2. apply (Ha2 l cc crash eq_refl). }
+           split; [apply increasing_snoc; [assumption|]; cbn [fst];
+                   rewrite (iv_maxhi_perm _ _ (Permutation_sym (Permutation_rev _))); unfold acc_iv in Hab; lia|].
+           split.
+           { cbn [all_above forallb fst snd]. fold (all_above (iv_maxhi (cov e older)) (map (run_iv e) (t_acc (c_pool c t)))).
+             unfold acc_iv in Ha4. rewrite Ha4, andb_true_r. apply orb_true_iff. right. apply N.leb_le. lia. }
+           rewrite Hnst. discriminate.
+        -- cbn [app]. intros m Hm. pose proof (k_rep c I m Hm). lia.
+        -- apply (sk_keep c t _ []); try assumption; [reflexivity|auto].
+        -- cbn [app]. apply (k_evs c I).
 Qed.
 
 (** ** skip_to_end and the length queries *)
@@ -528,9 +970,11 @@ Lemma kinv_ret_plain c t r d v l :
   res_cover e r = [] -> is_end r = false -> is_panic r = false ->
   (forall o older, pend_call t (c_trace c) = Some (o, older) ->
      (o <> Skip /\ v = s_c (c_sh c)) \/ (o = Skip /\ e_len e <= v)) ->
+  (forall m, min_reported (ERet t r d :: c_trace c) = Some m -> e_len e - frontier (with_c (c_sh c) v) <= m) ->
+  ev_all t r d (c_trace c) = true ->
   KInv (commit c t (with_c (c_sh c) v) (set_pc (c_pool c t) PIdle) l [ERet t r d]).
 Proof.
-  intros I Hin Hni Hacc Hcov Hne Hnp Hctx.
+  intros I Hin Hni Hacc Hcov Hne Hnp Hctx Hrep Hev.
   destruct (k_wf c I t) as (Hok & Hops & Hbuf).
   pose proof (k_call c I t) as Hc. unfold call_ok in Hc. rewrite Hni in Hc.
   destruct Hc as (o & older & Hpend & Hres).
@@ -559,7 +1003,34 @@ Proof.
     destruct Hctx as [[Hns ->]|(-> & Hv1)].
     + destruct o; try (apply (k_skip c I)). contradiction Hns; reflexivity.
     + intros _. exact Hv1.
+  - cbn [app set_pc t_buf]. intros bf Hbf. rewrite buf_size_ret. apply (k_buf c I). assumption.
+  - unfold acc_ok. cbn [app]. rewrite pend_call_self_ret. exact I0.
+  - destruct Hctx as [[Hns _]|(-> & _)].
+    + apply (sk_keep c t _ [ERet t r d]); try assumption.
+      * intros Hp. unfold call_res in Hres. rewrite Hp in Hres. apply call_res_skip in Hres. contradiction.
+      * reflexivity.
+      * intros H. cbn [app]. apply skip_returned_cons. exact H.
+    + intros _. left. cbn [app skip_returned]. rewrite Hsplit. reflexivity.
+  - cbn [app]. rewrite all_rets_ret, (k_evs c I), andb_true_r. exact Hev.
 Qed.
+
+Lemma kinv_skip_gen c t v l d :
+  KInv c -> In t L -> t_pc (c_pool c t) = PSkip -> e_len e <= v ->
+  KInv (commit c t (with_c (c_sh c) v) (set_pc (c_pool c t) PIdle) l [ERet t RUnit d]).
+Proof.
+  intros I Hin Hpc Hv.
+  destruct (k_wf c I t) as (Hok & _ & _). unfold kpc_ok in Hok. rewrite Hpc in Hok.
+  assert (Hni : is_idle (c_pool c t) = false) by (unfold is_idle; now rewrite Hpc).
+  pose proof (k_call c I t) as Hc. unfold call_ok in Hc. rewrite Hni in Hc.
+  destruct Hc as (o & older & Hpend & Hres). rewrite Hpc in Hres. apply call_res_skip in Hres. subst o.
+  apply kinv_ret_plain; try assumption; try reflexivity.
+  - intros o' older' Hp. rewrite Hpend in Hp. injection Hp as <- <-. right. split; [reflexivity|assumption].
+  - rewrite min_reported_ret_none by reflexivity. intros m Hm. unfold frontier, with_c. cbn [s_c]. lia.
+  - apply ev_all_null with Skip older; [apply pend_split; assumption|reflexivity].
+Qed.
+
+Lemma kind_cases : e_kind e = KSlice \/ e_kind e = KVec \/ e_kind e = KArray \/ e_kind e = KRange.
+Proof. pose proof not_iter as H. destruct (e_kind e); auto. contradiction H; reflexivity. Qed.
 
 Lemma kinv_skip c t :
   KInv c -> In t L -> t_pc (c_pool c t) = PSkip ->
@@ -567,28 +1038,19 @@ Lemma kinv_skip c t :
   KInv (step e c t).
 Proof.
   intros I Hin Hpc Hw.
-  destruct (k_wf c I t) as (Hok & _ & _). unfold kpc_ok in Hok. rewrite Hpc in Hok.
-  assert (Hni : is_idle (c_pool c t) = false) by (unfold is_idle; now rewrite Hpc).
-  assert (Hctx : forall v, e_len e <= v ->
-            forall o older, pend_call t (c_trace c) = Some (o, older) ->
-     (o <> Skip /\ v = s_c (c_sh c)) \/ (o = Skip /\ e_len e <= v)).
-  { intros v Hv1 o older Hp. right.
-    pose proof (k_call c I t) as Hc. unfold call_ok in Hc. rewrite Hni in Hc.
-    destruct Hc as (o' & older' & Hp' & Hres). rewrite Hp in Hp'. injection Hp' as <- <-.
-    rewrite Hpc in Hres. split; [eapply call_res_skip; eassumption|assumption]. }
   unfold step. rewrite Hpc.
-  pose proof not_iter as Hni'. destruct He as [Hlen _].
-  remember (e_kind e) as kd eqn:K. destruct kd; try (contradiction Hni'; reflexivity).
-  - apply kinv_ret_plain; try assumption; try reflexivity. apply Hctx; lia.
+  pose proof He as [Hlen _].
+  destruct kind_cases as [K|[K|[K|K]]]; rewrite K.
+  - apply kinv_skip_gen; try assumption; lia.
   - rewrite (k_fetch_n_spec e (e_len e) (s_c (c_sh c)) He Hlen).
     replace (N.min (e_len e) (e_len e)) with (e_len e) by lia. rewrite wadd_nowrap by assumption.
     destruct (pull_spec e (e_len e) (s_c (c_sh c))) as [|b' rs cnt];
-      (apply kinv_ret_plain; try assumption; try reflexivity; apply Hctx; lia).
+      (apply kinv_skip_gen; try assumption; lia).
   - rewrite (k_fetch_n_spec e (e_len e) (s_c (c_sh c)) He Hlen).
     replace (N.min (e_len e) (e_len e)) with (e_len e) by lia. rewrite wadd_nowrap by assumption.
     destruct (pull_spec e (e_len e) (s_c (c_sh c))) as [|b' rs cnt];
-      (apply kinv_ret_plain; try assumption; try reflexivity; apply Hctx; lia).
-  - apply kinv_ret_plain; try assumption; try reflexivity. apply Hctx; lia.
+      (apply kinv_skip_gen; try assumption; lia).
+  - apply kinv_skip_gen; try assumption; lia.
 Qed.
 
 Lemma kinv_skip_store c t :
@@ -597,17 +1059,38 @@ Lemma kinv_skip_store c t :
   KInv (step e c t).
 Proof.
   intros I Hin Hpc Hkk.
-  destruct (k_wf c I t) as (Hok & _ & _). unfold kpc_ok in Hok. rewrite Hpc in Hok.
-  assert (Hni : is_idle (c_pool c t) = false) by (unfold is_idle; now rewrite Hpc).
-  assert (Hgoal : KInv (commit c t (with_c (c_sh c) (e_len e)) (set_pc (c_pool c t) PIdle)
-                          (LAtom t SC AStore (e_len e) 0) [ERet t RUnit []])).
-  { apply kinv_ret_plain; try assumption; try reflexivity.
-    intros o older Hp. right.
-    pose proof (k_call c I t) as Hc. unfold call_ok in Hc. rewrite Hni in Hc.
-    destruct Hc as (o' & older' & Hp' & Hres). rewrite Hp in Hp'. injection Hp' as <- <-.
-    rewrite Hpc in Hres. split; [eapply call_res_skip; eassumption|lia]. }
-  unfold step. rewrite Hpc. destruct Hkk as [K|K]; rewrite K; exact Hgoal.
+  unfold step. rewrite Hpc. destruct Hkk as [K|K]; rewrite K; apply kinv_skip_gen; try assumption; lia.
 Qed.
+
+(** the length queries *)
+
+Lemma others_idle c t : KInv c -> In t L -> is_idle (c_pool c t) = false -> n_pending (c_trace c) = 1%Z ->
+  forall u, u <> t -> is_idle (c_pool c u) = true.
+Proof.
+  intros I Hin Hni Hp u Hu. destruct (in_dec Nat.eq_dec u L) as [HuL|HuL]; [|apply (k_out c I); assumption].
+  rewrite (k_pend c I) in Hp.
+  assert (Hs : sumZ (upd (fun v => pendZ (c_pool c v)) t 0%Z) L = 0%Z).
+  { rewrite sumZ_upd by assumption. unfold pendZ at 2. rewrite Hni. lia. }
+  assert (H0 : upd (fun v => pendZ (c_pool c v)) t 0%Z u = 0%Z).
+  { apply (sumZ_zero _ L); [|exact Hs|exact HuL].
+    intros v _. unfold upd, pendZ. destruct (Nat.eqb v t); [lia|]. destruct (is_idle (c_pool c v)); lia. }
+  rewrite upd_other in H0 by assumption. unfold pendZ in H0. destruct (is_idle (c_pool c u)); [reflexivity|discriminate].
+Qed.
+
+Lemma call_res_len_op ts o hm : call_res e ts o = CGo (PLen hm) ->
+  (o = TryLen /\ hm = false) \/ (o = HasMore /\ hm = true).
+Proof.
+  unfold call_res. destruct o; try discriminate.
+  - destruct (e_kind e); discriminate.
+  - destruct (c =? 0); discriminate.
+  - destruct (t_buf ts); discriminate.
+  - destruct (c =? 0); [discriminate|]. destruct (c =? 1); discriminate.
+  - intros E. injection E as <-. auto.
+  - intros E. injection E as <-. auto.
+Qed.
+
+Lemma knows_len_known : knows_len e = true.
+Proof using Hk. unfold knows_len. pose proof not_iter as H. destruct (e_kind e); try reflexivity. contradiction H; reflexivity. Qed.
 
 Lemma kinv_len c t hm :
   KInv c -> In t L -> t_pc (c_pool c t) = PLen hm -> KInv (step e c t).
@@ -615,20 +1098,105 @@ Proof.
   intros I Hin Hpc.
   destruct (k_wf c I t) as (Hok & _ & _). unfold kpc_ok in Hok. rewrite Hpc in Hok.
   assert (Hni : is_idle (c_pool c t) = false) by (unfold is_idle; now rewrite Hpc).
+  pose proof (k_call c I t) as Hc. unfold call_ok in Hc. rewrite Hni in Hc.
+  destruct Hc as (o & older & Hpend & Hres). rewrite Hpc in Hres.
+  pose proof (pend_split _ _ _ Hpend) as Hsplit.
+  pose proof (pend_suffix _ _ _ _ Hpend) as Hsuf.
+  set (n := k_len e (s_c (c_sh c))).
+  assert (Hn : n = e_len e - frontier (c_sh c)).
+  { unfold n, k_len, frontier. destruct (N.ltb_spec (s_c (c_sh c)) (e_len e)); lia. }
+  assert (Hstop : stopped older = true -> n = 0).
+  { intros H. pose proof (stopped_len c I (stopped_suffix _ _ Hsuf H)). unfold frontier in Hn. lia. }
+  assert (Hla : len_answer (len_res hm (Some n)) = Some (Some n)).
+  { destruct hm; cbn [len_res len_answer more_of]; [|reflexivity]. destruct n; reflexivity. }
+  assert (Hnp0 : n = 0 -> no_positive (len_res hm (Some n)) = true /\
+                 match o, len_res hm (Some n) with
+                 | HasMore, RMore HNo => true
+                 | HasMore, _ => false
+                 | TryLen, RLen (Some n) => n =? 0
+                 | TryLen, _ => false
+                 | _, _ => true
+                 end = true).
+  { intros ->. destruct (call_res_len_op _ _ _ Hres) as [[-> ->]|[-> ->]]; split; reflexivity. }
   unfold step. rewrite Hpc.
   pose proof not_iter as Hni'.
   assert (Hgoal : KInv (commit c t (c_sh c) (set_pc (c_pool c t) PIdle) (LAtom t SC ALoad 0 (s_c (c_sh c)))
-                          [ERet t (len_res hm (Some (k_len e (s_c (c_sh c))))) []])).
+                          [ERet t (len_res hm (Some n)) []])).
   { replace (c_sh c) with (with_c (c_sh c) (s_c (c_sh c))) at 1 by (destruct (c_sh c); reflexivity).
     apply kinv_ret_plain; try assumption.
     - destruct hm; reflexivity.
     - destruct hm; reflexivity.
     - destruct hm; reflexivity.
-    - intros o older Hp. left.
-      pose proof (k_call c I t) as Hc. unfold call_ok in Hc. rewrite Hni in Hc.
-      destruct Hc as (o' & older' & Hp' & Hres). rewrite Hp in Hp'. injection Hp' as <- <-.
-      rewrite Hpc in Hres. split; [eapply call_res_len; eassumption|reflexivity]. }
-  remember (e_kind e) as kd eqn:K. destruct kd; try (contradiction Hni'; reflexivity); exact Hgoal.
+    - intros o' older' Hp. left. rewrite Hpend in Hp. injection Hp as <- <-.
+      split; [eapply call_res_len; eassumption|reflexivity].
+    - replace (with_c (c_sh c) (s_c (c_sh c))) with (c_sh c) by (destruct (c_sh c); reflexivity).
+      cbn [min_reported]. rewrite Hla. intros m Hm.
+      destruct (min_reported (c_trace c)) as [m0|] eqn:Em.
+      + injection Hm as <-. pose proof (k_rep c I m0 Em). lia.
+      + injection Hm as <-. lia.
+    - assert (Hcov0 : res_cover e (len_res hm (Some n)) = []) by (destruct hm; reflexivity).
+      apply ev_all_intro with o older; try assumption.
+      + destruct hm; reflexivity.
+      + destruct (call_res_len_op _ _ _ Hres) as [[-> _]|[-> _]]; reflexivity.
+      + rewrite Hcov0. reflexivity.
+      + rewrite Hcov0. reflexivity.
+      + rewrite Hcov0. reflexivity.
+      + intros H. assert (n = 0) as Hz by (apply Hstop; unfold stopped; rewrite H; reflexivity).
+        destruct (Hnp0 Hz) as [-> _]. unfold delivers_nothing. rewrite Hcov0.
+        destruct (call_res_len_op _ _ _ Hres) as [[-> _]|[-> _]]; reflexivity.
+      + intros H. assert (n = 0) as Hz by (apply Hstop; unfold stopped; rewrite H; now rewrite orb_true_r).
+        destruct (Hnp0 Hz) as [_ ->]. unfold delivers_nothing. rewrite Hcov0.
+        destruct (call_res_len_op _ _ _ Hres) as [[-> _]|[-> _]]; reflexivity.
+      + (* C11 *)
+        unfold ev_C11. rewrite Hsplit, Hla.
+        assert (HB : match min_reported older with Some 0 => delivers_nothing e (len_res hm (Some n)) | _ => true end = true).
+        { unfold delivers_nothing. rewrite Hcov0. destruct (min_reported older) as [[|]|]; reflexivity. }
+        rewrite HB, andb_true_r.
+        assert (HA2 : match min_reported older with Some m => n <=? m | None => true end = true).
+        { destruct (min_reported older) as [m|] eqn:Em; [|reflexivity].
+          destruct (min_reported_suffix _ _ _ Hsuf Em) as (m' & Em' & Hle).
+          pose proof (k_rep c I m' Em'). apply N.leb_le. lia. }
+        rewrite HA2, andb_true_r.
+        destruct ((n_pending older =? 0)%Z && called_last t (c_trace c) && negb (has_panic older)) eqn:G; [|reflexivity].
+        apply andb_true_iff in G. destruct G as [G Gp]. apply andb_true_iff in G. destruct G as [Gn Gc].
+        apply Z.eqb_eq in Gn. apply negb_true_iff in Gp.
+        (* nothing has happened since the call: the trace is the call on top of [older] *)
+        assert (Htr : c_trace c = ECall t o :: older).
+        { unfold called_last in Gc. destruct (c_trace c) as [|[u o'|u r' d'|f r' d'] tr'] eqn:Et; try discriminate.
+          apply Nat.eqb_eq in Gc. subst u. rewrite pend_call_self_call in Hpend. injection Hpend as -> ->. reflexivity. }
+        assert (Hone : n_pending (c_trace c) = 1%Z) by (rewrite Htr, n_pending_call; lia).
+        pose proof (others_idle c t I Hin Hni Hone) as Hoth.
+        assert (Haccs : accs (c_pool c) = []).
+        { unfold accs. apply gather_nil. intros u _. unfold acc_iv.
+          destruct (Nat.eq_dec u t) as [->|Hu]; [rewrite Hok; reflexivity|].
+          rewrite (acc_idle c u I (Hoth u Hu)). reflexivity. }
+        assert (Hcovt : cov e (c_trace c) = cov e older) by (rewrite Htr; reflexivity).
+        assert (Hos : o <> Skip) by (eapply call_res_len; eassumption).
+        assert (Hhs : has_skip (c_trace c) = has_skip older).
+        { rewrite Htr. cbn [has_skip]. destruct o; try reflexivity. contradiction Hos; reflexivity. }
+        assert (Hhp : has_panic (c_trace c) = has_panic older) by (rewrite Htr; reflexivity).
+        assert (Hsr : skip_returned (c_trace c) = skip_returned older) by (rewrite Htr; reflexivity).
+        rewrite knows_len_known.
+        assert (Hrem : n =? (if skip_returned older then 0 else e_len e - iv_total (cov e older)) = true).
+        { apply N.eqb_eq. destruct (has_skip older) eqn:Ehs.
+          - (* a skip has been called: it has returned, since nothing else is pending *)
+            assert (skip_returned older = true) as Hsro.
+            { rewrite <- Hsr. destruct (k_sk c I Hhs) as [H|(u & Hu & Hpu)]; [exact H|].
+              destruct (Nat.eq_dec u t) as [->|Hut]; [rewrite Hpc in Hpu; discriminate|].
+              pose proof (Hoth u Hut) as Hi. unfold is_idle in Hi. rewrite Hpu in Hi. discriminate. }
+            rewrite Hsro. apply Hstop. unfold stopped. rewrite Hsro. now rewrite orb_true_r.
+          - assert (skip_returned older = false) as Hsro.
+            { destruct (skip_returned older) eqn:E; [|reflexivity]. rewrite (skip_returned_has_skip _ E) in Ehs. discriminate. }
+            rewrite Hsro.
+            assert (Hcl : clean (c_trace c) = true) by (unfold clean; rewrite Hhs, Hhp, Gp; reflexivity).
+            pose proof (tl_total _ _ _ (k_til c I) Hcl) as Ht. unfold hist in Ht. rewrite Haccs, app_nil_r, Hcovt in Ht.
+            rewrite Ht. exact Hn. }
+        rewrite Hrem. cbn [andb].
+        destruct (end_reported_strong older) eqn:Es; [|reflexivity].
+        assert (n = 0) as -> by (apply Hstop; unfold stopped; rewrite (end_strong_end _ Es); reflexivity).
+        reflexivity.
+      + destruct (call_res_len_op _ _ _ Hres) as [[-> _]|[-> _]]; reflexivity. }
+  destruct kind_cases as [K|[K|[K|K]]]; rewrite K; exact Hgoal.
 Qed.
 
 (** ** every step preserves the invariant *)
@@ -736,6 +1304,11 @@ Proof.
     rewrite gather_nil by reflexivity. replace (N.min 0 (e_len e)) with 0 by lia. apply tiling_empty.
   - discriminate.
   - discriminate.
+  - discriminate.
+  - intros t. exact I0.
+  - discriminate.
+  - discriminate.
+  - reflexivity.
 Qed.
 
 Lemma exec_snoc c sched t : exec e c (sched ++ [t]) = step e (exec e c sched) t.
